@@ -72,7 +72,12 @@ type rawClient struct {
 	accepted bool
 	dead     bool // reported CLOSED already
 	paused   bool // the reader goroutine stops draining the connection (a client that has stopped reading)
+	pend     []byte // bytes of an incomplete packet written so far (`raw` events): the client is mid-packet
 }
+
+// mid: an incomplete packet is pending on the connection, so no PINGREQ barrier can be put on it;
+// what it receives meanwhile is reported when it is at a packet boundary again.
+func (c *rawClient) mid() bool { return len(c.pend) > 0 }
 
 func newRawClient(id int, conn net.Conn) *rawClient {
 	c := &rawClient{id: id, conn: conn}
@@ -169,6 +174,9 @@ func (c *rawClient) take() []string {
 }
 
 type brokerCore struct {
+	rawConn     int  // connection of the current rawfirst/raw/close event (-1: none)
+	keepConnack bool // rawfirst: the CONNACK answering the first packet is kept in front of CLOSED
+	ring        int  // size of a connection's ring buffers
 	pipelined []byte
 	svr     *service.Server
 	clients map[int]*rawClient
@@ -201,6 +209,13 @@ func (b *brokerCore) reset() {
 	b.cbs = map[int]*service.OnPublishFunc{}
 	b.cblog = map[int][]string{}
 	message.VerifResetPacketID(0)
+	if b.ring == 0 {
+		vb, err := service.VerifNewBuffer(0) // the default size, which Server.BufferSize = 0 selects
+		if err != nil {
+			panic(err)
+		}
+		b.ring = int(vb.VerifSize())
+	}
 }
 
 func parseOptBytes(s string) *[]byte {
@@ -320,6 +335,13 @@ func (b *brokerCore) collect(firstID int, apierr bool, extra map[int][]string) s
 	for k, v := range extra {
 		groups[k] = v
 	}
+	b.collectInto(groups, firstID)
+	return b.render(groups, apierr)
+}
+
+// collectInto runs the barriers (first on `firstID`, if >= 0) and appends what every connection
+// received to its group.  Connections that are mid-packet are skipped (no barrier possible).
+func (b *brokerCore) collectInto(groups map[int][]string, firstID int) {
 	order := b.liveIDs()
 	if firstID >= 0 {
 		var o2 []int
@@ -334,6 +356,9 @@ func (b *brokerCore) collect(firstID int, apierr bool, extra map[int][]string) s
 	}
 	for _, id := range order {
 		c := b.clients[id]
+		if c.mid() {
+			continue
+		}
 		ok := b.barrier(c)
 		items := c.take()
 		c.mu.Lock()
@@ -357,7 +382,7 @@ func (b *brokerCore) collect(firstID int, apierr bool, extra map[int][]string) s
 			c.dead = true
 		}
 		if len(items) > 0 {
-			groups[id] = items
+			groups[id] = append(groups[id], items...)
 		}
 	}
 	if firstID >= 0 {
@@ -366,6 +391,9 @@ func (b *brokerCore) collect(firstID int, apierr bool, extra map[int][]string) s
 		if c, ok := b.clients[firstID]; ok && c.dead {
 			for _, id := range b.liveIDs() {
 				c2 := b.clients[id]
+				if c2.mid() {
+					continue
+				}
 				ok := b.barrier(c2)
 				items := dropBarrierPongs(c2.take(), c2)
 				if !ok {
@@ -377,6 +405,32 @@ func (b *brokerCore) collect(firstID int, apierr bool, extra map[int][]string) s
 				}
 			}
 		}
+	}
+}
+
+// ownFilter: on the line on which the event's own connection is closed, what else it was sent
+// on that line is not observed (the broker closes the socket before its sender goroutine has
+// flushed), except the CONNACK answering the first packet (written to the socket directly).
+func ownFilter(items []string, keepConnack bool) []string {
+	closed := false
+	for _, it := range items {
+		if it == "CLOSED" {
+			closed = true
+		}
+	}
+	if !closed {
+		return items
+	}
+	var out []string
+	if keepConnack && len(items) > 0 && strings.HasPrefix(items[0], "CONNACK") {
+		out = append(out, items[0])
+	}
+	return append(out, "CLOSED")
+}
+
+func (b *brokerCore) render(groups map[int][]string, apierr bool) string {
+	if its, ok := groups[b.rawConn]; ok && b.rawConn >= 0 {
+		groups[b.rawConn] = ownFilter(its, b.keepConnack)
 	}
 	var ids []int
 	for id := range groups {
@@ -428,10 +482,24 @@ func (b *brokerCore) cb(id int) *service.OnPublishFunc {
 }
 
 func (b *brokerCore) handle(ws []string) string {
+	b.rawConn, b.keepConnack = -1, false
 	switch ws[0] {
 	case "reset":
 		b.reset()
 		return "reset"
+	case "rawfirst":
+		return b.rawFirst(atoi(ws[1]), unhex(ws[2]), ws[3] == "1")
+	case "race":
+		return b.race(ws)
+	case "raw":
+		c, ok := b.clients[atoi(ws[1])]
+		if !ok || c.dead || !c.accepted {
+			return "-"
+		}
+		b.rawConn = c.id
+		groups := map[int][]string{}
+		b.rawWrite(c, unhex(ws[2]), groups)
+		return b.render(groups, false)
 	case "first":
 		id := atoi(ws[1])
 		var bytes []byte
@@ -532,6 +600,10 @@ func (b *brokerCore) handle(ws []string) string {
 		if !ok || c.dead {
 			return "-"
 		}
+		if c.mid() {
+			// the packet's bytes would become part of the pending packet: that is what `raw` expresses
+			return "bad-op"
+		}
 		var bytes []byte
 		switch ws[2] {
 		case "publish":
@@ -589,6 +661,8 @@ func (b *brokerCore) handle(ws []string) string {
 		if !ok || c.dead {
 			return "-"
 		}
+		b.rawConn = id
+		c.pend = nil
 		c.conn.Close()
 		c.waitUntil(func() bool { return c.eof }, brokerWait)
 		return b.collect(id, false, nil)
@@ -636,4 +710,235 @@ func clientPacketBytes(ws []string) []byte {
 		return []byte{0xe0, 0x00}
 	}
 	return nil
+}
+
+// ---- byte-level events (property C05) -------------------------------------------------------
+
+const (
+	tailNone  = iota // the bytes end at a packet boundary
+	tailQuiet        // an incomplete packet: the broker waits for more
+	tailFatal        // the broker gives up on the header: a fifth length byte, or a packet larger than the ring
+)
+
+// scanFrames frames buf the way any MQTT receiver must (type byte, remaining length of at most
+// four bytes, that many bytes): k = end of the last complete frame, pings = complete PINGREQ
+// frames among them (each is answered by a PINGRESP if the connection lives that long), and
+// what the bytes behind k are.  Used only to know when to wait for what; the expectation
+// itself comes from the Lean model.
+func scanFrames(buf []byte, ring int) (k, pings, tail int) {
+	i := 0
+	for {
+		if i == len(buf) {
+			return i, pings, tailNone
+		}
+		rem, mult, m, done := 0, 1, 0, false
+		for m < 4 {
+			if i+1+m >= len(buf) {
+				return i, pings, tailQuiet
+			}
+			d := buf[i+1+m]
+			rem += int(d&0x7f) * mult
+			mult *= 128
+			m++
+			if d&0x80 == 0 {
+				done = true
+				break
+			}
+		}
+		if !done {
+			return i, pings, tailFatal
+		}
+		total := 1 + m + rem
+		if ring > 0 && total > ring {
+			return i, pings, tailFatal
+		}
+		if i+total > len(buf) {
+			return i, pings, tailQuiet
+		}
+		if buf[i] == 0xc0 && rem == 0 {
+			pings++
+		}
+		i += total
+	}
+}
+
+// rawWrite writes data on an accepted connection and appends the observations to groups:
+// first everything up to the end of the last packet that is complete now, then a barrier
+// round (the connection is at a packet boundary), then the bytes of the incomplete packet.
+func (b *brokerCore) rawWrite(c *rawClient, data []byte, groups map[int][]string) {
+	b.rawWriteWhile(c, data, groups, nil)
+}
+
+// rawWriteWhile: like rawWrite; `during` (if any) runs concurrently with the first write on c.
+func (b *brokerCore) rawWriteWhile(c *rawClient, data []byte, groups map[int][]string, during func()) {
+	together := func(w func()) {
+		if during == nil {
+			w()
+			return
+		}
+		done := make(chan struct{})
+		go func() { w(); close(done) }()
+		during()
+		during = nil
+		<-done
+	}
+	stream := append(append([]byte{}, c.pend...), data...)
+	written := len(c.pend)
+	k, pings, tail := scanFrames(stream, b.ring)
+	if k > written {
+		c.mu.Lock()
+		c.pings += pings
+		c.eventPings += pings
+		c.mu.Unlock()
+		together(func() { c.write(stream[written:k]) })
+		written = k
+		c.pend = nil
+		b.collectInto(groups, c.id)
+		if c.dead {
+			return
+		}
+	}
+	if len(stream) > written {
+		together(func() { c.write(stream[written:]) })
+	} else if during != nil {
+		together(func() {})
+	}
+	c.pend = append([]byte{}, stream[k:]...)
+	if tail == tailFatal {
+		c.waitUntil(func() bool { return c.eof }, brokerWait)
+		c.pend = nil
+	}
+	if k <= len(stream)-len(data) || tail == tailFatal {
+		// nothing completed (the others are observed all the same), or the connection should be gone now
+		b.collectInto(groups, c.id)
+	}
+}
+
+// rawFirst opens connection id and sends data as the first thing on it.  closes: the client
+// closes its end when it has sent everything (after reading the answer to a complete first packet).
+func (b *brokerCore) rawFirst(id int, data []byte, closes bool) string {
+	b.rawConn, b.keepConnack = id, true
+	n, _, tail := scanFrames(data, 0)
+	complete := false
+	if n > 0 {
+		// the first complete frame only
+		n, _, _ = scanFrames(data[:firstFrameLen(data)], 0)
+		complete = true
+	}
+	cl, sv := net.Pipe()
+	c := newRawClient(id, cl)
+	c.stopped = make(chan struct{})
+	stoppedMu.Lock()
+	stoppedChans[sv] = c.stopped
+	stoppedMu.Unlock()
+	b.clients[id] = c
+	served := make(chan struct{})
+	go func() { b.svr.VerifServe(sv); close(served) }()
+	refused := func(items []string, ok bool) string {
+		if !ok {
+			items = append(items, "TIMEOUT")
+			c.conn.Close()
+		}
+		// the handler may still be busy with what the bytes made it allocate (up to 2 x 256 MB for an
+		// announced length): let it return before the next event starts its own connect deadline
+		select {
+		case <-served:
+		case <-time.After(brokerWait):
+			items = append(items, "SERVE-TIMEOUT")
+		}
+		items = append(items, "CLOSED")
+		c.dead = true
+		stoppedMu.Lock()
+		delete(stoppedChans, sv)
+		stoppedMu.Unlock()
+		return b.collect(-1, false, map[int][]string{id: items})
+	}
+	if !complete {
+		if len(data) > 0 {
+			c.write(data)
+		}
+		if closes && tail != tailFatal {
+			c.conn.Close()
+		}
+		// otherwise the broker gives up: at once on a fifth length byte, else at its connect deadline
+		ok := c.waitUntil(func() bool { return c.eof }, brokerWait)
+		return refused(c.take(), ok)
+	}
+	c.write(data[:n])
+	c.waitUntil(func() bool { return len(c.items) > 0 || c.eof }, brokerWait)
+	c.mu.Lock()
+	if len(c.items) > 0 && strings.HasPrefix(c.items[0], "CONNACK") && strings.HasSuffix(c.items[0], " 0") {
+		c.accepted = true
+	}
+	c.mu.Unlock()
+	if !c.accepted {
+		ok := c.waitUntil(func() bool { return c.eof }, brokerWait)
+		return refused(c.take(), ok)
+	}
+	groups := map[int][]string{}
+	b.collectInto(groups, id)
+	if !c.dead && len(data) > n {
+		b.rawWrite(c, data[n:], groups)
+	}
+	if !c.dead && closes {
+		c.pend = nil
+		c.conn.Close()
+		c.waitUntil(func() bool { return c.eof }, brokerWait)
+		b.collectInto(groups, id)
+	}
+	return b.render(groups, false)
+}
+
+// firstFrameLen: length of the first complete frame of data (which scanFrames found to exist).
+func firstFrameLen(data []byte) int {
+	rem, mult, m := 0, 1, 0
+	for {
+		d := data[1+m]
+		rem += int(d&0x7f) * mult
+		mult *= 128
+		m++
+		if d&0x80 == 0 {
+			break
+		}
+	}
+	return 1 + m + rem
+}
+
+// race: `race <a> <hex|close> <p> <hex>` — connection a sends its bytes (or closes its socket) while
+// connection p sends whole packets, with nothing in between: deliveries to a race with a's teardown.
+// Observed afterwards like any other event; what a itself received is not compared once it is closed.
+func (b *brokerCore) race(ws []string) string {
+	a, okA := b.clients[atoi(ws[1])]
+	p, okP := b.clients[atoi(ws[3])]
+	if !okA || !okP || a == p || a.dead || p.dead || !a.accepted || !p.accepted || p.mid() || a.mid() {
+		// (a mid-packet: its bytes would continue the pending packet instead of being what the event is
+		// about — bytes or a close that end the connection —, and the outcome would depend on the order)
+		return "-"
+	}
+	b.rawConn = a.id
+	dataP := unhex(ws[4])
+	kP, pingsP, _ := scanFrames(dataP, b.ring)
+	p.mu.Lock()
+	p.pings += pingsP
+	p.eventPings += pingsP
+	p.mu.Unlock()
+	sendP := func() {
+		if len(dataP) > 0 {
+			p.write(dataP)
+		}
+		p.pend = append([]byte{}, dataP[kP:]...)
+	}
+	groups := map[int][]string{}
+	if ws[2] == "close" {
+		done := make(chan struct{})
+		go func() { a.conn.Close(); close(done) }()
+		sendP()
+		<-done
+		a.pend = nil
+		a.waitUntil(func() bool { return a.eof }, brokerWait)
+		b.collectInto(groups, a.id)
+	} else {
+		b.rawWriteWhile(a, unhex(ws[2]), groups, sendP)
+	}
+	return b.render(groups, false)
 }
